@@ -381,6 +381,31 @@ def rule_s11(repo):
     from .c04 import numeral_type_rule
     return numeral_type_rule(repo, 'C14.S11')
 
+def rule_s12(repo):
+    """A forward suggestion says "this adds the fact F in front of the goal".  Applying it has to add that line on every way it completes:
+    a return in front of the insertion ("the fact is already there") makes the applied suggestion a no-op while the search still offers
+    it, and a script that replays the step finds the proof one line shorter than recorded.  In the apply of the methods that insert a
+    line (`add_line_before` + `set_line`), no normal exit is reachable without the insertion."""
+    res = RuleResult('C14.S12', 'a method that adds a fact adds it on every normal completion of apply', floor=3)
+    m = repo.module(METHOD)
+    for c in m.classes.values():
+        f = c.methods.get('apply')
+        if f is None:
+            continue
+        cfg = cfg_of(f.node)
+        ins = [n for n in cfg.nodes if n.kind == 'stmt' and any(isinstance(x, ast.Call) and call_attr(x) == 'add_line_before' for x in ast.walk(n.ast))]
+        sets = [n for n in cfg.nodes if n.kind == 'stmt' and any(isinstance(x, ast.Call) and call_attr(x) == 'set_line' for x in ast.walk(n.ast))]
+        if not ins or not sets:
+            continue
+        # conditional insertion is this rule's subject only when the method always inserts elsewhere: all insert sites unconditional in the clean tree
+        ok = cfg.path_avoiding(cfg.exit, skip_nodes=ins) is None
+        early = [r for r in cfg.return_nodes() if cfg.path_avoiding(r, skip_nodes=ins) is not None]
+        res.add('%s :: %s.apply :: inserts-on-every-completion' % (METHOD, c.name), ok,
+                'every normal exit lies behind add_line_before' if ok else
+                'line %d leaves apply without having added the line the suggestion advertises' % (early[0].lineno if early else f.node.lineno),
+                '%s:%d' % (METHOD, (early[0] if early else ins[0]).lineno))
+    return res
+
 
 def rules(repo):
-    return [rule_s1(repo), rule_s2(repo), rule_s3(repo), rule_s4(repo), rule_s5(repo), rule_s6(repo), rule_s7(repo), rule_s8(repo), rule_s9(repo), rule_s10(repo), rule_s11(repo)]
+    return [rule_s1(repo), rule_s2(repo), rule_s3(repo), rule_s4(repo), rule_s5(repo), rule_s6(repo), rule_s7(repo), rule_s8(repo), rule_s9(repo), rule_s10(repo), rule_s11(repo), rule_s12(repo)]
